@@ -33,24 +33,22 @@ Proof.
       rewrite Hpow in Hv. set (P := 128 ^ N.of_nat (S m')) in *.
       assert (HB : b2N (N2b (128 + v' mod 128)) = 128 + v' mod 128).
       { rewrite b2N_N2b. lia. }
-      apply (IH (S m')); try lia.
-      * unfold v'. lia.
-      * rewrite HB. lia.
-      * intros i Hi. cbn [app leb_loop]. rewrite HB.
-        replace (128 + v' mod 128 <? 128) with false by lia.
-        replace (10 <? i + 1) with false by lia.
-        replace (18446744073709551616 <=? v' + 1) with false by lia.
-        replace (((v' + 1) * 128) mod 18446744073709551616 + b2N hd mod 128) with v by (unfold v'; lia).
-        apply Hres. lia.
+      apply (IH (S m')); [lia | lia | lia | fold P; unfold v'; lia | unfold v'; lia | rewrite HB; lia | ].
+      intros i Hi. cbn [app leb_loop]. rewrite HB.
+      replace (128 + v' mod 128 <? 128) with false by lia.
+      replace (10 <? i + 1) with false by lia.
+      replace (18446744073709551616 <=? v' + 1) with false by (unfold v'; lia).
+      replace (((v' + 1) * 128) mod 18446744073709551616 + b2N hd mod 128) with v by (unfold v'; lia).
+      apply Hres. lia.
 Qed.
 End Varint.
 
 (* git's varint of any value below 2^63 decodes to that value, leaving the rest untouched *)
 Lemma L_varint_roundtrip v r : v < 9223372036854775808 -> var_int (encode_varint v ++ r) = Ok (v, r).
 Proof.
-  intros Hv. unfold encode_varint. apply (enc_ok r v 10 10%nat); try lia.
+  intros Hv. unfold encode_varint.
+  apply (enc_ok r v 10 10%nat); [lia | lia | cbn; lia | | exact Hv | rewrite b2N_N2b; lia | ].
   - change (N.of_nat 10) with 10. change (128 ^ 10) with 1180591620717411303424. lia.
-  - rewrite b2N_N2b. lia.
   - intros i _. cbn [app]. destruct r; cbn [leb_loop]; rewrite b2N_N2b;
       replace ((v mod 128) mod 256 <? 128) with true by lia; reflexivity.
 Qed.
@@ -83,18 +81,22 @@ Proof.
   assert (Hcl : (common <= length prevname)%nat).
   { unfold common. destruct fresh; [lia|apply common_prefix_le]. }
   rewrite L_varint_roundtrip by lia. cbn [obind].
-  assert (Hpre : match prev with
-                 | None => Ok []
-                 | Some p => if N.of_nat (length p) <? N.of_nat (length prevname - common) then none
-                             else Ok (firstn (length p - N.to_nat (N.of_nat (length prevname - common))) p)
-                 end = (Ok (firstn common (e_path e)) : res bytes)).
-  { destruct Hprev as [-> | [-> Hc]].
+  assert (Hfc : firstn common prevname = firstn common (e_path e) \/ common = 0%nat).
+  { unfold common. destruct fresh; [right; reflexivity|left; apply common_prefix_firstn]. }
+  assert (Hpre : forall (k : bytes -> res (entry * bytes)),
+     (pre <- match prev with
+             | None => Ok []
+             | Some p => if N.of_nat (length p) <? N.of_nat (length prevname - common) then none
+                         else Ok (firstn (length p - N.to_nat (N.of_nat (length prevname - common))) p)
+             end ;; k pre) = k (firstn common (e_path e))).
+  { intros k. destruct Hprev as [-> | [-> Hc]].
     - replace (N.of_nat (length prevname) <? N.of_nat (length prevname - common)) with false by lia.
-      f_equal. rewrite Nat2N.id. replace (length prevname - (length prevname - common))%nat with common by lia.
-      unfold common. destruct fresh; [reflexivity|apply common_prefix_firstn].
-    - f_equal. unfold common. destruct Hc as [-> | ->]; [reflexivity|].
-      destruct fresh; [reflexivity|]. reflexivity. }
-  rewrite Hpre. cbn [obind].
+      cbn [obind]. f_equal. rewrite Nat2N.id.
+      replace (length prevname - (length prevname - common))%nat with common by lia.
+      destruct Hfc as [Hfc | ->]; [exact Hfc|reflexivity].
+    - cbn [obind]. f_equal. unfold common. destruct Hc as [-> | ->]; [reflexivity|].
+      destruct fresh; reflexivity. }
+  rewrite Hpre.
   assert (Hsuf : ~ In x00 (skipn common (e_path e))).
   { intros Hin. apply Hnul. rewrite <- (firstn_skipn common (e_path e)). apply in_or_app. right. exact Hin. }
   change (skipn common (e_path e) ++ [x00] ++ r) with (skipn common (e_path e) ++ x00 :: r).
